@@ -30,7 +30,7 @@ func (n *DefaultNode) Build(d *pipeline.DefaultNode) (ast.Node, error) {
 	}
 	sort.Strings(fieldKeys)
 	for _, k := range fieldKeys {
-		n.Dot("field", k, d.Fields[k])
+		n.DotZeroValueOK("field", k, d.Fields[k])
 	}
 
 	var tagKeys []string
@@ -39,7 +39,7 @@ func (n *DefaultNode) Build(d *pipeline.DefaultNode) (ast.Node, error) {
 	}
 	sort.Strings(tagKeys)
 	for _, k := range tagKeys {
-		n.Dot("tag", k, d.Tags[k])
+		n.DotZeroValueOK("tag", k, d.Tags[k])
 	}
 	return n.prev, n.err
 }
